@@ -457,6 +457,9 @@ func RunConvergingFleet(q quietFleet, env *runner.Env, res *runner.Result) {
 				l.WaitQuiescent(nil, 5, wd)
 			}
 		}
+		if !q.LateForced {
+			fleetSettled(insts, loops, s, b, wd)
+		}
 	}
 	if q.LateAt != "" && q.LateForced {
 		// an ordinary deletion on i0, fully synced, before the late commit
@@ -527,6 +530,13 @@ func RunConvergingFleet(q quietFleet, env *runner.Env, res *runner.Result) {
 			}
 		}
 	}
+	if q.ForcedMS == 0 && !q.LateForced {
+		// at rest = idle AND everybody has merged everybody's newest snapshot. A fleet that stays idle without ever
+		// doing that is not converging: judged below on the states, after the bounded wait
+		if ok, _ := fleetSettled(insts, loops, s, b, wd); !ok {
+			res.Count("fleets_idle_without_having_merged_all_newest_snapshots", 1)
+		}
+	}
 	res.Count("converging_fleets", 1)
 	wit := map[string]any{"fleet": q, "events_tail": s.Tail(60)}
 	states := make([]inst.State, len(insts))
@@ -579,4 +589,43 @@ func RunConvergingFleet(q quietFleet, env *runner.Env, res *runner.Result) {
 	}
 	res.NonTrivial = true
 	res.Sample = map[string]any{"fleet": q, "uploads": b.SuccessfulCount("Store"), "events": s.Len()}
+}
+
+// fleetSettled waits until the fleet is really at rest: every loop idle (logical clock) AND every instance has merged
+// the newest snapshot of every other instance that is in the bucket. Idle iterations alone are not enough on a loaded
+// machine: a download or a decompression in flight does not show in the loop's iteration count.
+func fleetSettled(insts []*inst.Inst, loops []*sched.Loop, s *sched.Sched, b *bucket.B, wd time.Duration) (bool, string) {
+	deadline := time.Now().Add(wd)
+	good := 0
+	for time.Now().Before(deadline) {
+		for _, l := range loops {
+			if ok, why := l.WaitQuiescent(nil, 5, wd); !ok {
+				return false, l.I.Name + ": " + why
+			}
+		}
+		newest := map[string]string{}
+		for _, n := range b.Names() {
+			if ni, err := snapshot.ParseName(n); err == nil && n > newest[ni.InstanceID] {
+				newest[ni.InstanceID] = n
+			}
+		}
+		all := true
+		for _, x := range insts {
+			for in, n := range newest {
+				if in != x.Name && !s.Loaded(x.Name, n, 0) {
+					all = false
+				}
+			}
+		}
+		if all {
+			good++
+			if good >= 2 {
+				return true, ""
+			}
+		} else {
+			good = 0
+		}
+		time.Sleep(2 * time.Millisecond)
+	}
+	return false, "instances have not merged each other's newest snapshots"
 }
